@@ -43,6 +43,7 @@ type Env struct {
 	Hist     int
 	Step     int
 	OnCall   func(op string, failed bool)
+	Path     string // file of the file store, if any
 }
 
 var missing = V{"t": "missing"}
